@@ -99,6 +99,27 @@ def exact_is_equality(db):
     return ok and fw
 
 
+def _req_of(body):
+    """the requirement an arm imposes: the require_* callee if every branch of the arm calls the same one, 'accept-all' if
+    some branch (of a nested match / if) imposes none or the branches differ, ('never',) if the arm diverges"""
+    from facts import hir_walk as _hw
+    b = arms.unwrap_block(body) if hasattr(arms, "unwrap_block") else body
+    while isinstance(b, dict) and b.get("k") == "Match" and (b.get("src") or "").startswith("TryDesugar"):
+        b = b["s"]["a"][0] if b["s"].get("k") == "Call" and b["s"].get("a") else b["s"]
+    if isinstance(b, dict) and b.get("k") == "Match" and b.get("src") == "Normal":
+        subs = [_req_of(a["b"]) for a in b["arms"]]
+        subs = [x for x in subs if x != ("never",)]
+        if not subs:
+            return ("never",)
+        return subs[0] if all(x == subs[0] for x in subs) else "accept-all"
+    if isinstance(b, dict) and b.get("k") == "If":
+        subs = [_req_of(b["t"]), _req_of(b["el"]) if "el" in b else "accept-all"]
+        subs = [x for x in subs if x != ("never",)]
+        return subs[0] if subs and all(x == subs[0] for x in subs) else "accept-all"
+    calls = [c for c in arms.calls_in(body) if c.startswith(REQ)]
+    return calls[0] if calls else (("never",) if body.get("never") else "accept-all")
+
+
 def build(db):
     T = Tables()
     T.binops = arms.adt_variants(db, BINOP)
@@ -119,8 +140,7 @@ def build(db):
     tab = expand(db, m, OPCLASS)
     T.bin_check = {}
     for v, arm in tab.items():
-        calls = [c for c in arms.calls_in(arm["b"]) if c.startswith(REQ)]
-        T.bin_check[v] = calls[0] if calls else (("never",) if arm["b"].get("never") else "accept-all")
+        T.bin_check[v] = _req_of(arm["b"])
     T.bin_check_same = any(c == REQ + "same" for c in arms.calls_in(f.hir))
     # ---- unop_check: op -> require fn
     T.un_check = {}
